@@ -9,6 +9,10 @@
 // started worker processes (this test binary re-executed in worker mode; every
 // process has its own map hash seeds).  Oracle: the SHA-256 of Circuit.Marshal
 // and of the Params.SSAOut text is the same for all compilations.
+//
+// Unit cli (cli_test.go) drives the command-line tool apps/garbled instead: a
+// program compiled alone and as part of a batch on one command line must give
+// byte-identical output files.
 package c08
 
 import (
@@ -72,6 +76,14 @@ type Case struct {
 	Procs     int      `json:"procs"` // worker processes
 	WReps     int      `json:"wreps"` // compilations per worker
 	Tags      []string `json:"tags,omitempty"`
+
+	// Unit cli (see cli_test.go): the programs of one apps/garbled command
+	// line, the order of the second batch run and the output options.
+	Batch  []CliFile `json:"batch,omitempty"`
+	Order2 []int     `json:"order2,omitempty"`
+	NoCirc bool      `json:"nocirc,omitempty"` // -ssa only
+	NoSSA  bool      `json:"nossa,omitempty"`  // -circ only
+	Format string    `json:"format,omitempty"` // -format (default mpclc)
 }
 
 func init() {
@@ -79,6 +91,7 @@ func init() {
 	ev.Register("multi", run)
 	ev.Register("repo", run)
 	ev.Register("native", run)
+	ev.Register("cli", run)
 }
 
 // ---------------------------------------------------------------------------
@@ -217,7 +230,9 @@ func TestMain(m *testing.M) {
 	if root, ok := os.LookupEnv(workerEnv); ok {
 		os.Exit(workerMain(root))
 	}
-	os.Exit(m.Run())
+	rc := m.Run()
+	cleanupGarbled()
+	os.Exit(rc)
 }
 
 func workerMain(root string) int {
@@ -423,11 +438,12 @@ func pkgSources(cs Case, name string) []string {
 }
 
 type progInfo struct {
-	consts    int // constants defined by the main package
-	allConsts int // constants defined by main and all imported packages
-	pkgs      int // packages imported (transitively)
-	varPkgs   int // imported packages that define package-level variables
-	direct    int // packages imported by main directly
+	consts    int             // constants defined by the main package
+	allConsts int             // constants defined by main and all imported packages
+	pkgs      int             // packages imported (transitively)
+	varPkgs   int             // imported packages that define package-level variables
+	direct    int             // packages imported by main directly
+	varSet    map[string]bool // import paths of the packages counted by varPkgs
 }
 
 func mainSource(cs Case) string {
@@ -439,8 +455,14 @@ func mainSource(cs Case) string {
 }
 
 func scanProgram(cs Case) progInfo {
-	var pi progInfo
-	mi := scanSource(mainSource(cs))
+	return scanProgramSource(cs, mainSource(cs))
+}
+
+// scanProgramSource scans the program with main source text main over the
+// library packages of the case and of the repository.
+func scanProgramSource(cs Case, main string) progInfo {
+	pi := progInfo{varSet: map[string]bool{}}
+	mi := scanSource(main)
 	pi.consts = mi.consts
 	pi.allConsts = mi.consts
 	pi.direct = len(mi.imports)
@@ -463,9 +485,70 @@ func scanProgram(cs Case) progInfo {
 		}
 		if vars > 0 {
 			pi.varPkgs++
+			pi.varSet[name] = true
 		}
 	}
 	return pi
+}
+
+var reMainWidth = regexp.MustCompile(`func main\(a(?:, b)? u?int(\d+)`)
+
+// mainWidth returns the operand width of a generated main (0 = unknown).
+func mainWidth(src string) int {
+	m := reMainWidth.FindStringSubmatch(src)
+	if m == nil {
+		return 0
+	}
+	var w int
+	fmt.Sscanf(m[1], "%d", &w)
+	return w
+}
+
+// hasMult tells whether the program or one of the case's library packages
+// contains a multiplication (generated sources write it as " * ").
+func hasMult(cs Case, src string) bool {
+	if strings.Contains(src, " * ") {
+		return true
+	}
+	for _, f := range cs.Files {
+		if strings.Contains(f.Text, " * ") {
+			return true
+		}
+	}
+	return false
+}
+
+// histSource returns the source of an earlier compilation.
+func histSource(cs Case, h Hist) string {
+	switch {
+	case h.Prog <= -2 && len(cs.HistMains) > 0:
+		return cs.HistMains[(-2-h.Prog)%len(cs.HistMains)]
+	case h.Prog < 0:
+		return mainSource(cs)
+	}
+	return histProgs[h.Prog%len(histProgs)]
+}
+
+// sameBaseImports tells whether one source file of the case (main or a
+// library package) imports two paths that end in the same component.
+func sameBaseImports(cs Case) bool {
+	srcs := []string{mainSource(cs)}
+	for _, f := range cs.Files {
+		if strings.HasSuffix(f.Path, ".mpcl") {
+			srcs = append(srcs, f.Text)
+		}
+	}
+	for _, src := range srcs {
+		seen := map[string]bool{}
+		for _, imp := range scanSource(src).imports {
+			b := filepath.Base(imp)
+			if seen[b] {
+				return true
+			}
+			seen[b] = true
+		}
+	}
+	return false
 }
 
 // ---------------------------------------------------------------------------
@@ -611,29 +694,45 @@ var scratchBase = sync.OnceValue(func() string {
 	return os.Getenv("C08_SCRATCH") // set by the tests to t.TempDir()
 })
 
+// writeScratch writes the library packages of the case below a fresh scratch
+// directory (root == "" when the case has none).
+func writeScratch(cs Case) (root string, cleanup func(), skip string) {
+	cleanup = func() {}
+	if len(cs.Files) == 0 {
+		return "", cleanup, ""
+	}
+	dir, err := os.MkdirTemp(scratchBase(), "c08-")
+	if err != nil {
+		return "", cleanup, "scratch directory: " + err.Error()
+	}
+	cleanup = func() { os.RemoveAll(dir) }
+	for _, f := range cs.Files {
+		p := filepath.Join(dir, filepath.FromSlash(f.Path))
+		if !strings.HasPrefix(filepath.Clean(p), dir) {
+			cleanup()
+			return "", func() {}, "file path escapes the scratch directory"
+		}
+		os.MkdirAll(filepath.Dir(p), 0o755)
+		if err := os.WriteFile(p, []byte(f.Text), 0o644); err != nil {
+			cleanup()
+			return "", func() {}, "scratch file: " + err.Error()
+		}
+	}
+	return dir, cleanup, ""
+}
+
 func run(cs Case) ev.Outcome {
 	if cs.Reps < 1 {
 		cs.Reps = 1
 	}
-	root := ""
-	if len(cs.Files) > 0 {
-		dir, err := os.MkdirTemp(scratchBase(), "c08-")
-		if err != nil {
-			return ev.Outcome{Skip: "scratch directory: " + err.Error()}
-		}
-		defer os.RemoveAll(dir)
-		for _, f := range cs.Files {
-			p := filepath.Join(dir, filepath.FromSlash(f.Path))
-			if !strings.HasPrefix(filepath.Clean(p), dir) {
-				return ev.Outcome{Skip: "file path escapes the scratch directory"}
-			}
-			os.MkdirAll(filepath.Dir(p), 0o755)
-			if err := os.WriteFile(p, []byte(f.Text), 0o644); err != nil {
-				return ev.Outcome{Skip: "scratch file: " + err.Error()}
-			}
-		}
-		root = dir
+	if cs.Kind == "cli" {
+		return runCli(cs)
 	}
+	root, cleanup, skip := writeScratch(cs)
+	if skip != "" {
+		return ev.Outcome{Skip: skip}
+	}
+	defer cleanup()
 
 	// Worker processes run concurrently with the in-process repetitions.
 	type wres struct {
@@ -754,10 +853,40 @@ func run(cs Case) ev.Outcome {
 		classes = append(classes, "same-named-circ-files-differ")
 	}
 	for _, h := range cs.History {
-		if h.Prog <= -2 {
-			classes = append(classes, "history=other-main-over-same-pkgs")
+		if h.Prog <= -2 && len(cs.HistMains) > 0 {
+			if cs.Kind == "gen" {
+				classes = append(classes, "history=other-generated-program")
+			} else {
+				classes = append(classes, "history=other-main-over-same-pkgs")
+			}
 			break
 		}
+	}
+	if cs.Kind == "gen" || cs.Kind == "multi" {
+		// Multiplications of the measured program and of earlier programs
+		// on the same Params, at widths with / without a tuned multiplier
+		// threshold (source scan).
+		mw, mm := mainWidth(mainSource(cs)), hasMult(cs, mainSource(cs))
+		if mm {
+			classes = append(classes, "measured-multiplies")
+		}
+		contrast := false
+		for _, h := range cs.History {
+			src := histSource(cs, h)
+			hw := mainWidth(src)
+			if h.Share && mm && hw > 0 && mw > 0 && hasMult(cs, src) && tunedMultWidth(hw) != tunedMultWidth(mw) {
+				contrast = true
+			}
+		}
+		if contrast {
+			classes = append(classes, "shared-history-multiplies-at-other-threshold-class")
+			if cs.MultThr == 0 && !cs.GMW {
+				classes = append(classes, "shared-history-multiplies-at-other-threshold-class,default-threshold,yao")
+			}
+		}
+	}
+	if sameBaseImports(cs) {
+		classes = append(classes, "importer-with-imports-sharing-last-path-component")
 	}
 	nontrivial := pi.varPkgs >= 2 || pi.allConsts >= 3 || clash
 	out := ev.OK(nontrivial, classes...)
@@ -790,29 +919,45 @@ func setScratch(t *testing.T) {
 	}
 }
 
-func drawCommon(t *rapid.T, cs *Case, allowSelf bool) {
+// drawCommon draws options, repetition counts and the history.  With
+// histMains two history entries in three compile one of the case's own
+// further programs (cs.HistMains); the others a fixed program or the
+// measured program itself.  Three entries in four run on the Params object
+// of the measured compilation: state that an earlier compilation leaves
+// behind in a fresh Params object of its own cannot reach the measured one.
+func drawCommon(t *rapid.T, cs *Case, allowSelf, histMains bool) {
 	col := ev.Get(prop)
 	cs.Reps, cs.Procs, cs.WReps = reps(col)
 	cs.Prune = rapid.IntRange(0, 3).Draw(t, "prune") == 0
 	cs.GMW = rapid.IntRange(0, 3).Draw(t, "gmw") == 0
-	cs.MultThr = rapid.SampledFrom([]int{0, 0, 8, 21}).Draw(t, "multthr")
-	nh := rapid.SampledFrom([]int{0, 1, 1, 2, 3}).Draw(t, "nhist")
+	cs.MultThr = rapid.SampledFrom([]int{0, 0, 0, 8, 21}).Draw(t, "multthr")
+	nh := rapid.SampledFrom([]int{1, 0, 1, 2, 3}).Draw(t, "nhist")
 	lo := 0
 	if allowSelf {
 		lo = -1
 	}
 	for i := 0; i < nh; i++ {
-		cs.History = append(cs.History, Hist{
-			Prog:  rapid.IntRange(lo, len(histProgs)-1).Draw(t, "hprog"),
-			Share: rapid.Bool().Draw(t, "hshare"),
-		})
+		var h Hist
+		if histMains && len(cs.HistMains) > 0 && rapid.IntRange(0, 2).Draw(t, "hown") < 2 {
+			h.Prog = -2 - rapid.IntRange(0, len(cs.HistMains)-1).Draw(t, "hmain")
+		} else {
+			h.Prog = rapid.IntRange(lo, len(histProgs)-1).Draw(t, "hprog")
+		}
+		h.Share = rapid.IntRange(0, 3).Draw(t, "hshare") < 3
+		cs.History = append(cs.History, h)
 	}
 }
 
 func genSingle(t *rapid.T) Case {
 	cs := Case{Kind: "gen"}
-	cs.Main, cs.Tags = drawSingleProgram(t)
-	drawCommon(t, &cs, true)
+	cs.Main, cs.Tags = drawSingleProgram(t, false)
+	// Further programs with independently drawn types (each multiplies at
+	// its own width) for the history.
+	for i := rapid.SampledFrom([]int{1, 0, 1, 2, 2}).Draw(t, "nhistmains"); i > 0; i-- {
+		src, _ := drawSingleProgram(t, true)
+		cs.HistMains = append(cs.HistMains, src)
+	}
+	drawCommon(t, &cs, true, true)
 	return cs
 }
 
@@ -835,7 +980,7 @@ func nativeClash(cs Case) bool {
 func genNative(t *rapid.T) Case {
 	cs := Case{Kind: "native"}
 	cs.Main, cs.HistMains, cs.Files, cs.Tags = drawNativeProgram(t)
-	drawCommon(t, &cs, true)
+	drawCommon(t, &cs, true, false)
 	// Most histories compile another main over the same package tree (which
 	// loads the same-named circuit files of other packages) first.
 	n := rapid.IntRange(0, 3).Draw(t, "nhistmain")
@@ -852,8 +997,8 @@ func genNative(t *rapid.T) Case {
 
 func genMulti(t *rapid.T) Case {
 	cs := Case{Kind: "multi"}
-	cs.Main, cs.Files, cs.Tags = drawMultiProgram(t)
-	drawCommon(t, &cs, true)
+	cs.Main, cs.HistMains, cs.Files, cs.Tags = drawMultiProgram(t)
+	drawCommon(t, &cs, true, true)
 	return cs
 }
 
